@@ -83,6 +83,15 @@ def call_atoms(callee, a):
             from ..ms import displaced_configurations
             displaced_configurations(fp)
             abtem.Potential(fp, gpts=16, slice_thickness=2.0).build(lazy=False)
+        elif callee.startswith("FrozenPhonons.iterate("):
+            symbols = sorted(set(a.get_chemical_symbols()))
+            sig = {"FrozenPhonons.iterate(per-element sigmas)": {el: 0.05 + 0.03 * i for i, el in enumerate(symbols)},
+                   "FrozenPhonons.iterate(anisotropic sigmas)": {el: (0.05, 0.1, 0.02) for el in symbols},
+                   "FrozenPhonons.iterate(per-atom sigmas)": np.full((len(a), 3), 0.07)}[callee]
+            fp = abtem.FrozenPhonons(a, num_configs=2, sigmas=sig, seed=1)
+            from ..ms import displaced_configurations
+            displaced_configurations(fp)
+            abtem.Potential(fp, gpts=16, slice_thickness=2.0).build(lazy=False)
         elif callee == "StructureFactor":
             from abtem.bloch import StructureFactor
             StructureFactor(a, g_max=2.0).build(lazy=False) if hasattr(StructureFactor(a, g_max=2.0), "build") else None
@@ -121,7 +130,7 @@ def make_measurement(typ, cx, lazy):
     ens = (2, 3) if typ in ("DiffractionPatterns", "PolarMeasurements") else (2,)
     arr = (np.arange(int(np.prod(ens + base))).reshape(ens + base) % 7 + 1.0).astype(dt)
     if cx:
-        arr = arr * np.exp(0.3j)
+        arr = (arr * np.exp(0.3j)).astype(dt)         # abTEM's own complex precision (complex64): in-place FFT paths apply
     if lazy:
         import dask.array as da
         arr = da.from_array(arr, chunks=(1,) * len(ens) + base)
@@ -215,7 +224,7 @@ def self_test(ctx: Ctx):
 
 
 def run(ctx: Ctx):
-    ctx.rule = ("calls = atoms-taking callee (10) x atoms kind (6: orthogonal, hexagonal, atoms outside the cell, tiny off-diagonal cell "
+    ctx.rule = ("calls = atoms-taking callee (13, frozen phonons with scalar / per-element / anisotropic / per-atom sigmas) x atoms kind (6: orthogonal, hexagonal, atoms outside the cell, tiny off-diagonal cell "
                 "noise, constraints/tags, partial pbc), and measurement type (4) x complex/real x lazy/eager x every public method "
                 "with an entry in the argument table; enumerated by TLC from Ownership.tla; non-trivial = the call returns")
     r = ctx.design_check("Ownership", "Ownership.cfg", label="call space", workers=1)
